@@ -3,4 +3,14 @@ EXTENDS Bitcoinlib
 \* chains differ pairwise in at least one observable (so a stale chain is observable)
 Distinguishable == \A a, b \in Chains : a # b => (Magic(a) # Magic(b) /\ RpcPort(a) # RpcPort(b) /\ DefaultPort(a) # DefaultPort(b))
 ASSUME Distinguishable
+\* the genesis block of every chain: the computed identifiers are the published ones, the block passes every
+\* context-free check under its own chain, and its proof of work is not accepted by a stricter chain
+GenesisSound ==
+  /\ Rev(Txid(GenesisCoinbase)) = PublishedGenesisMerkle
+  /\ \A c \in Chains : Rev(GenesisHash(c)) = PublishedGenesisHash(c)
+  /\ \A c \in Chains : CheckBlock(c, Genesis(c), 1700000000, TRUE, TRUE)
+  /\ ~CheckBlock("mainnet", Genesis("regtest"), 1700000000, TRUE, TRUE)
+  /\ ~CheckBlock("mainnet", Genesis("signet"), 1700000000, TRUE, TRUE)
+  /\ CheckBlock("regtest", Genesis("mainnet"), 1700000000, TRUE, TRUE)
+  /\ \A c \in Chains : ~CheckBlock(c, Genesis(c), 1231006505 - 7201, TRUE, TRUE) \/ c # "mainnet"
 =============================================================================
